@@ -16,6 +16,12 @@ def _exact_cases():
         out.append(("outage", sockgen.outage_exact(n, ["conn", "idem"], [3, 3, 3], 24)))     # 'conn' entries expire on the way
         out.append(("outage", sockgen.outage_exact(n, ["idem"], [0, 0, 0, 0, 0, 0, 0, 0, 0, 241], 24)))
     out.append(("outage", [("send", 1, "ok", "idem"), ("open",), ("send", 2, "ok", "idem"), ("adv", 8)]))   # send before open
+    # held messages flushed onto a congested link: the first write blocks in drain() while the clock moves on, so entries held
+    # behind it expire DURING the flush - they must be discarded when their turn comes, not transmitted late
+    for wait in (3, 5, 6, 7, 8, 9, 12, 40):
+        for lat in (1, 2):
+            out.append(("outage", [("net", "accept"), ("lat", lat), ("blockfirst", 1), ("open",), ("send", 1, "ok", "idem"), ("send", 2, "ok", "conn"),
+                                   ("send", 3, "ok", "idem"), ("send", 4, "ok", "conn"), ("adv", lat + wait), ("blockfirst", 0), ("block", 0), ("adv", 16)]))
     return out
 
 
